@@ -4,7 +4,7 @@ set -e
 cd "$(dirname "$0")/coq"
 { echo "-Q . Supp"; find Lib Model Proofs Props -name '*.v' 2>/dev/null | LC_ALL=C sort; } > _CoqProject
 coq_makefile -f _CoqProject -o Makefile
-targets=""
+targets="Lib/Cases.vo"
 for id in $(cat ../manifest.d/ENABLED); do
   [ -f "Props/$id.v" ] && targets="$targets Props/$id.vo"
 done
